@@ -161,7 +161,11 @@ def run_network(spec, walk, ctx, case):
             created['relay'] = edzed.Input('relay', initdef=spec['init'][spec['relay']],
                                            on_output=edzed.Event(spec['relay'], 'put'))
         feeders = {f['feeder']: f['name'] for f in spec['fed']}
+        keep = []
+        prng = ctx.rng('perturb', core.case_hash(case)) if spec.get('perturb') else None
         for c in spec['cblocks']:
+            if prng is not None:
+                core.perturb_addresses(prng, keep)
             kw = {}
             if c['name'] in feeders:
                 kw['on_output'] = edzed.Event(feeders[c['name']], 'put')
@@ -278,6 +282,8 @@ def run_network(spec, walk, ctx, case):
             ctx.count('acyclic_bursts')
     if acyclic and state['max_burst'] > n:
         ctx.count('acyclic_over_n_evals')
+    if acyclic and state['max_burst'] > 3 * len(spec['cblocks']):
+        ctx.count('acyclic_over_3x_cblocks_evals')
     return state
 
 
@@ -354,12 +360,39 @@ def ladder(rng):
     return {'sources': ['s0'], 'init': {'s0': rng.random() < 0.5}, 'fed': fed, 'cblocks': cbs}
 
 
+def reconv(rng):
+    """
+    Acyclic, purely combinational, reconvergent: b_i = xor(s0, p_0 .. p_{i-1}) with pass-through
+    copies p_j = ident(b_j).  The pass-throughs hide the dependencies from the simulator's
+    'fewest pending direct predecessors' heuristic, so the number of evaluations depends on how it
+    breaks ties (set iteration order = object addresses) and may approach the number of paths.
+    Idle sources bring 3*n above that number.
+    """
+    k = rng.choice([2, 3, 3, 4])
+    cbs = []
+    for i in range(k):
+        cbs.append({'name': f"b{i}", 'kind': 'xor', 'ins': ['s0'] + [f"p{j}" for j in range(i)]})
+        if i < k - 1:
+            cbs.append({'name': f"p{i}", 'kind': 'ident', 'ins': [f"b{i}"]})
+    rng.shuffle(cbs)
+    spec = {'sources': ['s0'], 'init': {'s0': False}, 'fed': [], 'cblocks': cbs, 'perturb': True}
+    bound = eval_bound(spec)
+    need = max(0, -(-bound // 3) - len(cbs) - 1)
+    for x in range(need + rng.choice([0, 1, 3])):
+        spec['sources'].append(f"idle{x}")
+        spec['init'][f"idle{x}"] = False
+    return spec
+
+
 def gen(ctx):
     rng = ctx.rng('gen')
     n = 300 if ctx.tier == 'quick' else 8000
     for i in range(n):
         r = rng.random()
-        if r < 0.45:
+        if r < 0.12:
+            spec = reconv(rng)
+            kind = 'reconv'
+        elif r < 0.45:
             spec = random_network(rng)
             kind = 'random'
         elif r < 0.65:
@@ -368,16 +401,37 @@ def gen(ctx):
         else:
             spec = ladder(rng)
             kind = 'ladder'
+            # idle sequential blocks: they count for the size of the circuit (the documented
+            # limit is 'several times the circuit'), not for the work to be done
+            for x in range(rng.choice([0, 0, 2, 4, 8])):
+                spec['sources'].append(f"idle{x}")
+                spec['init'][f"idle{x}"] = False
             nblocks = len(spec['cblocks']) + len(spec['fed']) + len(spec['sources'])
+            if rng.random() < 0.5:
+                # prefer work-heavy ladders: more evaluations than 3 x (number of CBlocks) may be
+                # needed, still within the documented limit of 3 x (number of all blocks)
+                for _ in range(30):
+                    if 3 * len(spec['cblocks']) < eval_bound(spec) <= 3 * nblocks:
+                        break
+                    spec = ladder(rng)
+                    for x in range(rng.choice([2, 4, 8, 12])):
+                        spec['sources'].append(f"idle{x}")
+                        spec['init'][f"idle{x}"] = False
+                    nblocks = len(spec['cblocks']) + len(spec['fed']) + len(spec['sources'])
+                else:
+                    continue
+                kind = 'heavy_ladder'
             if eval_bound(spec) > 3 * nblocks:
                 continue
         walk = [dict(spec['init'])]
         steps = rng.randrange(2, 7)
+        if kind == 'reconv':
+            steps = rng.randrange(6, 14)
         if kind == 'ladder' and rng.random() < 0.35:
             spec['relay'] = 's0'
             steps = rng.randrange(8, 16)
         for _ in range(steps):
-            s = rng.choice(spec['sources'])
+            s = rng.choice([x for x in spec['sources'] if not x.startswith('idle')])
             cur = {}
             for w in walk:
                 cur.update(w)
